@@ -4,6 +4,7 @@ package binutils
 
 import (
 	"debug/elf"
+	"strconv"
 	"strings"
 )
 
@@ -100,4 +101,35 @@ func VerifC13ToolInput(base, addr uint64) (a2l, llvmCode, llvmData string, err e
 	}
 	llvmData = rw.written[0]
 	return
+}
+
+// VerifC13A2LWithNM drives (*addr2Liner).addrInfo with a scripted addr2line pipe that answers the
+// given frames (function names, innermost first, the last one is the non-inlined frame) and, when
+// hasNM, an attached nm table built exactly as fileAddr2Line.init builds it: parseAddr2LinerNM with
+// the file's base (newAddr2LinerNM minus the exec of nm). It returns the Func of every frame.
+func VerifC13A2LWithNM(base uint64, nmOut string, hasNM bool, addr uint64, frames []string) (funcs []string, err error) {
+	answers := []string{"0x0"}
+	for i, f := range frames {
+		if f == "" {
+			f = "??"
+		}
+		answers = append(answers, f, "file.c:"+strconv.Itoa(i+1))
+	}
+	answers = append(answers, "0xffffffffffffffff", "??", "??:0")
+	a := &addr2Liner{rw: &verifC13RW{answers: answers}, base: base}
+	if hasNM {
+		nm, err := parseAddr2LinerNM(base, strings.NewReader(nmOut))
+		if err != nil {
+			return nil, err
+		}
+		a.nm = nm
+	}
+	st, err := a.addrInfo(addr)
+	if err != nil {
+		return nil, err
+	}
+	for _, f := range st {
+		funcs = append(funcs, f.Func)
+	}
+	return funcs, nil
 }
